@@ -40,7 +40,7 @@ CFG = {
                   "returned by Draw (model = scanner model composed with C14's NewSurface/Fill/WriteCell/row-loop model) has min(#lines, Max.Height) "
                   "rows, the width findContainerSize computes, and row y shows line y cell by cell (grapheme j at column = width before it, wide "
                   "graphemes occupy width columns, every other column blank, lines beyond Max.Height dropped); hardwrap_is_split_at_newline "
-                  "(HardwrapScanner = split at \\n exactly); hard_draw_rows (hard-wrap Draw with its ellipsis). GEN: 21 facts_* theorems over the "
+                  "(HardwrapScanner = split at \\n exactly); hard_draw_rows (hard-wrap Draw with its ellipsis). GEN: 19 facts_* theorems over the "
                   "extracted guards of both Scan functions, firstLineSegment, HardwrapScanner and the Draw loops - scanners_agree (text = rich), "
                   "operators proved to be the model's tests for all inputs, int sums (F45), state reset (F116). Real violations found and fixed "
                   "in /repo: F44, F45 (round 1), F116 (stale uniseg state after a long-word split: terminator inside a line, needless split), "
